@@ -3,7 +3,7 @@
 suf=$1; na=$2; nb=$3; shift 3
 ids=${@:-$(seq -f "C%02g" 1 20)}
 for id in $ids; do
-  d=/tmp/wt/$id-$suf
+  d=${SEED_BASE:-/tmp/wt}/$id-$suf
   for pair in a:$na b:$nb; do
     w=${pair%%:*}; n=${pair##*:}
     [ -f $d/$w.diff ] || continue
